@@ -233,6 +233,9 @@ STATEMENTS = {
     'close': ('SELECT account, balance FROM CLOSE ON 2020-03-01 WHERE account ~ "Assets"', None),
     'div': ('SELECT date, account, number / 3 AS q, number / 7 * 1.0000000000000000001 AS w, safediv(number, 9) AS z WHERE number != 0', None),
     'div-agg': ('SELECT account, sum(number) / 7 AS s, sum(number / 3) AS t, count(*) AS n GROUP BY account ORDER BY account', None),
+    'ctx-funcs': ('SELECT account, convert(position, "USD") AS c, value(position) AS v, getprice(currency, "USD") AS p, account_sortkey(account) AS k, '
+                  'possign(number, account) AS g, open_date(account) AS o, currency_meta(currency, "name") AS m ORDER BY date, account, number', None),
+    'ctx-agg': ('SELECT account_sortkey(account) AS k, convert(sum(position), "USD") AS c, value(sum(position)) AS v GROUP BY 1 ORDER BY 1', None),
     'open-close-rows': ('SELECT date, narration, account, position, balance FROM OPEN ON 2019-07-01 CLOSE ON 2020-07-01 CLEAR', None),
     'close-count': ('SELECT year, count(*) AS n, sum(position) AS s FROM CLOSE ON 2020-03-01 GROUP BY year ORDER BY year', None),
     'balances': ('BALANCES AT cost FROM year = 2020', None),
@@ -243,7 +246,8 @@ STATEMENTS = {
 }
 PAIRS = [('bal2', 'bal1'), ('bal2', 'bal3'), ('bal3', 'subq-in'), ('units-bal', 'journal'), ('agg', 'agg-year'), ('agg', 'agg'), ('subq-from', 'subq-in'),
          ('param-a', 'param-b'), ('named', 'param-a'), ('open-close', 'close'), ('open-close', 'bal2'), ('balances', 'journal'), ('distinct', 'entries'),
-         ('pivot', 'agg'), ('bal2', 'bal2'), ('close', 'bal1'), ('open-close', 'open-close-rows'), ('close', 'close-count'), ('open-close', 'open-close'), ('div', 'div-agg'), ('div-agg', 'bal2')]
+         ('pivot', 'agg'), ('bal2', 'bal2'), ('close', 'bal1'), ('open-close', 'open-close-rows'), ('close', 'close-count'), ('open-close', 'open-close'), ('div', 'div-agg'), ('div-agg', 'bal2'),
+         ('ctx-funcs', 'ctx-funcs'), ('ctx-funcs', 'ctx-agg'), ('balances', 'balances')]
 
 
 def make_job(conn, text_or_ast, params):
@@ -331,7 +335,7 @@ def build_pair(ctx, rng, pi, mode):
     derived inside the schedule, by whichever thread gets there first."""
     a, b = PAIRS[pi % len(PAIRS)]
     led = ledgers.gen_ledger(rng, ntxn=rng.randint(3, ctx.pick(5, 8)), with_queries=False)
-    led2 = ledgers.gen_ledger(rng, ntxn=rng.randint(3, 6), with_queries=False) if mode == 'different' else None
+    led2 = ledgers.gen_ledger(rng, ntxn=rng.randint(3, 6), with_queries=False, renamed_roots=rng.random() < 0.5) if mode == 'different' else None
     (ta, pa), (tb, pb) = STATEMENTS[a], STATEMENTS[b]
     shared_ast = a.startswith('param') and b.startswith('param') and mode == 'shared' and rng.random() < 0.7
 
@@ -498,7 +502,7 @@ def run(ctx):
             continue
         if ctx.out_of_time():
             break
-        if ctx.quick and m != 'shared' and pi % 4:
+        if ctx.quick and m != 'shared' and pi % 4 and not PAIRS[pi][0].startswith(('ctx-', 'balances')):
             continue
         explore_pair(ctx, pi, m)
     if ctx.shard == 0:
